@@ -210,7 +210,7 @@ def looks_like_header(tok):
 
 def abstract_events(events, life=None):
     """life: {layer: has both setUp and tearDown}; the set-up / tear-down
-    events of a layer with only one of the two hooks are dropped (such a layer
+    events of a layer with only one of the two hooks are marked x (such a layer
     is unobservable for the stack discipline, like a hook-less one).
     Group by process (parent first, children by first event time), keep
     per-process order (seq), map to the uniform record TLC consumes."""
@@ -218,10 +218,6 @@ def abstract_events(events, life=None):
     first = {}
     for e in events:
         if e['e'] not in EV_MAP:
-            continue
-        if life is not None and e['e'] in ('LsetUpBegin', 'LsetUpEnd',
-                                           'LtearDownBegin', 'LtearDownEnd') \
-                and not life.get(e['l'], True):
             continue
         if e['e'] == 'Write' and not (
                 e.get('via') == 'fd' and e.get('stream') == 'stderr'
@@ -241,7 +237,11 @@ def abstract_events(events, life=None):
         evs = sorted(by_pid[pid], key=lambda e: e['seq'])
         for e in evs:
             k = EV_MAP[e['e']]
-            rec = {'e': k, 'l': '', 't': '', 's': '', 'it': 0}
+            rec = {'e': k, 'l': '', 't': '', 's': '', 'it': 0, 'x': False}
+            if life is not None and k in ('SUB', 'SUE', 'TDB', 'TDE'):
+                # a layer with only one of setUp / tearDown is unobservable
+                # for the stack discipline (its faults still count)
+                rec['x'] = not life.get(e['l'], True)
             if k == 'PS':
                 rec['s'] = e.get('role', '')
                 rec['l'] = layer_abstract_name(e.get('resume', ''))
